@@ -12,11 +12,14 @@ from .e2e import generate_client
 SCHEMA = "type Query { q(a: Int): String  n: Int }\n"
 QUERY = "query GetQ($a: Int) { q(a: $a) }"
 
+SCHEMA_SHORT = "type U { id: ID! fullName: String }\ntype Query { currentUser: U  n: Int }\n"
+QUERIES_SHORT = "query GetCurrentUser { currentUser { id fullName } } query GetAlias { theUser: currentUser { id } } query GetPlain { n }"
+
 ERR = [{"message": "boom", "path": ["q"], "locations": [{"line": 1, "column": 2}], "extensions": {"code": "X"}, "errorType": "Vendor"},
        {"message": "boom", "path": ["other"]}, {"message": "explicit nulls", "locations": None, "path": None, "extensions": None}]
 # (label, status, raw body bytes or JSON value, expected outcome)
 TABLE = [
-    ("ok", 200, {"data": {"q": "v"}}, "data"), ("ok-201", 201, {"data": {"q": "v"}}, "data"), ("ok-extra-keys", 200, {"data": {"q": "v"}, "extensions": {"t": 1}}, "data"),
+    ("ok", 200, {"data": {"q": "v"}}, "data"), ("ok-string-with-outer-whitespace", 200, {"data": {"q": "  padded\tvalue \n"}}, "data"), ("ok-201", 201, {"data": {"q": "v"}}, "data"), ("ok-extra-keys", 200, {"data": {"q": "v"}, "extensions": {"t": 1}}, "data"),
     ("ok-empty-errors", 200, {"data": {"q": "v"}, "errors": []}, "data"), ("ok-null-errors", 200, {"data": {"q": "v"}, "errors": None}, "data"),
     ("errors-without-data", 200, {"errors": ERR}, "multi"), ("errors-with-partial-data", 200, {"data": {"q": None}, "errors": ERR}, "multi"),
     ("errors-with-full-data", 200, {"data": {"q": "v"}, "errors": ERR[:1]}, "multi"),
@@ -98,6 +101,35 @@ def bounded_outcomes(tier, seed):
                 bad = _drive(g, async_, tracer, label, status, body, expected)
                 if bad:
                     fails.append(dict(inputs=dict(scenario=f"{name}:{label}"), failed=bad, outcome=None))
+        except Exception as e:      # noqa
+            fails.append(dict(inputs=dict(scenario=f"{name}:generation"), failed=["generation"], outcome=f"{type(e).__name__}: {str(e)[:200]}"))
+        finally:
+            if g is not None:
+                g.cleanup()
+    # ShorterResults: the single top-level field is returned directly, whatever its Python name / response key is
+    for name, opts, async_ in (("shorter-results-async", dict(), True), ("shorter-results-sync", dict(async_client=False), False)):
+        g = None
+        try:
+            g = generate_client(SCHEMA_SHORT, QUERIES_SHORT, plugins=["ariadne_codegen.contrib.shorter_results.ShorterResultsPlugin"], **opts)
+            mod = g.module()
+            for method, data, read in (("get_current_user", {"currentUser": {"id": "1", "fullName": " Ann \n"}}, lambda r: (r.id, r.full_name) == ("1", " Ann \n")),
+                                       ("get_alias", {"theUser": {"id": "2"}}, lambda r: r.id == "2"),
+                                       ("get_plain", {"n": 7}, lambda r: r == 7),
+                                       ("get_current_user", {"currentUser": None}, lambda r: r is None)):
+                cases += 1
+                handler = lambda request, _d=data: httpx.Response(200, json={"data": _d})      # noqa: E731
+                try:
+                    if async_:
+                        client = mod.Client(url="http://x/graphql", http_client=httpx.AsyncClient(transport=httpx.MockTransport(handler)))
+                        out = asyncio.run(getattr(client, method)())
+                    else:
+                        client = mod.Client(url="http://x/graphql", http_client=httpx.Client(transport=httpx.MockTransport(handler)))
+                        out = getattr(client, method)()
+                    bad = [] if read(out) else [f"shortened-result-is-the-single-field-of-that-data: {out!r}"]
+                except Exception as e:      # noqa
+                    bad = [f"outcome other:{type(e).__name__} instead of data ({str(e)[:120]})"]
+                if bad:
+                    fails.append(dict(inputs=dict(scenario=f"{name}:{method}:{sorted(data)[0]}={'null' if list(data.values())[0] is None else 'value'}"), failed=bad, outcome=None))
         except Exception as e:      # noqa
             fails.append(dict(inputs=dict(scenario=f"{name}:generation"), failed=["generation"], outcome=f"{type(e).__name__}: {str(e)[:200]}"))
         finally:
